@@ -249,7 +249,7 @@ fn replay(case: &Value, st: &mut Stats, seed: u64) {
     let all = seeds(seed, false);
     let label = case["seed"].as_str().unwrap_or("");
     let Some(s) = all.iter().find(|s| s.label == label) else {
-        eprintln!("unknown seed {label}");
+        crate::diag!("unknown seed {label}");
         return;
     };
     let bytes = crate::util::unhex(case["archive"].as_str().unwrap_or(""));
@@ -319,7 +319,7 @@ pub fn run(args: &Args) -> i32 {
         }
     });
     ctx.stats.merge(s);
-    eprintln!("  [C04] byte changes done at {:.1}s", ctx.elapsed());
+    crate::diag!("  [C04] byte changes done at {:.1}s", ctx.elapsed());
 
     // truncations and swaps via the builder
     let (a, b) = payloads(seed);
